@@ -101,6 +101,9 @@ def run(ctx):
     cases.append((ctx.work, "inc_sub", inc, (), ["shop/billing/b.proto"]))
     cases.append((ctx.work, "inc_leaf", inc, (), ["shop/billing/v2/c.proto"]))
     cases.append((ctx.work, "inc_parent", inc, (), ["shop.proto"]))
+    from . import c18
+    for name, protos in c18.feature_programs():          # single-feature packages (alone, in a sub-package, in several packages of one run)
+        cases.append((ctx.work, "f_" + name, protos, ()))
     events = ctx.pmap(compile_case, cases, chunk=2)
     for c, e in zip(cases, events):
         e["case"]["name"] = c[1]
